@@ -132,7 +132,13 @@ func genGraph(rng *rand.Rand) Graph {
 	if len(g.Edges) > 0 && rng.Intn(5) < 2 {
 		for k := 1 + rng.Intn(2); k > 0; k-- {
 			e := g.Edges[rng.Intn(len(g.Edges))]
-			switch rng.Intn(4) {
+			switch rng.Intn(5) {
+			case 4:
+				// Two more copies whose types differ in one attribute value.
+				p := siblingTypes[rng.Intn(len(siblingTypes))]
+				e.Type = p[0]
+				g.Edges = append(g.Edges, e)
+				e.Type = p[1]
 			case 0:
 				e.Type = typeNames[rng.Intn(len(typeNames))]
 			case 1:
